@@ -222,4 +222,119 @@ theorem libs_roundtrip (libs : List CLib) (ls : List CLib) (ws : List LW) (prev 
         rw [hfs]
         simp [readLibs]
 
+/-- the top instance the reader builds from the writer's `(design …)` -/
+def readTop (ident name : Str) (li di : Nat) : CInst :=
+  { data := (withName [] ident name).set (S "metadata_prefix") (.list []), ref := some (li, di) }
+
+/-- **design_roundtrip** -/
+theorem design_roundtrip (rlibs : List CLib) (tdata : Data) (ident name did lid : Str) (li di : Nat) (l' : CLib)
+    (hn : NamedOK tdata ident name) (hvd : validIdentTok did = true) (hvl : validIdentTok lid = true)
+    (hfl : findIdent (rlibs.map (·.data)) lid = some li) (hl : rlibs[li]? = some l')
+    (hfd : findIdent (l'.defs.map (·.data)) did = some di) :
+    ∃ nm, nameSExp tdata "top instance" = .ok nm ∧
+      parseDesign rlibs [A "design", nm, .list [A "cellref", .atom did, .list [A "libraryref", .atom lid]]] =
+        .ok (readTop ident name li di) := by
+  obtain ⟨nm, hnm, hshape, hdef⟩ := nameDef_nameSExp tdata ident name hn "top instance"
+  refine ⟨nm, hnm, ?_⟩
+  have hv := validIdentTok_of_check ident hn.hc
+  rcases hshape with hs | hs
+  · subst hs
+    have hd := hdef [] [] rfl
+    simp only [nameDef, identOfS, hv, if_true, bind, Except.bind, pure, Except.pure, push_mk, List.cons_append,
+      List.nil_append, setAttr_ident [] ident hn.hc rfl, pop_mk, List.dropLast, Except.ok.injEq, Prod.mk.injEq, Meta.mk.injEq,
+      and_true] at hd
+    show parseDesign rlibs [A "design", .atom ident,
+      .list [.atom "cellref".toList, .atom did, .list [.atom "libraryref".toList, .atom lid]]] = _
+    simp only [parseDesign, List.tail_cons, Meta.new, identOfS, hv, if_true, push_mk, List.cons_append, List.nil_append,
+      setAttr_ident [] ident hn.hc rfl, pop_mk, List.dropLast, hd, hvd, hvl, Bool.and_self, Bool.not_true,
+      Bool.false_eq_true, if_false, hfl, hl, hfd, readTop, bind, Except.bind, pure, Except.pure]
+  · subst hs
+    have hr := parseRename_ok [] ident name hn.hc hn.hs rfl
+    show parseDesign rlibs [A "design", .list [A "rename", .atom ident, qtok name],
+      .list [.atom "cellref".toList, .atom did, .list [.atom "libraryref".toList, .atom lid]]] = _
+    simp only [parseDesign, List.tail_cons, Meta.new, hr, hvd, hvl, Bool.and_self, Bool.not_true, Bool.false_eq_true,
+      if_false, hfl, hl, hfd, readTop, bind, Except.bind, pure, Except.pure]
+
+
+def kVERSION : Str := S "EDIF.edifVersion"
+
+/-- hypotheses at file level -/
+structure NetOK (n : CNetlist) (nident nname : Str) (prog ver : Option Str) (lws : List LW) (t : CInst)
+    (tident tname : Str) (li di : Nat) : Prop where
+  named : NamedOK n.data nident nname
+  status : StatusOK n.data prog ver
+  libs : LibsOK n.libs [] [] n.libs lws
+  top : n.top = some t
+  tnamed : NamedOK t.data tident tname
+  tref : t.ref = some (li, di)
+  target : ∃ l d did lid l', n.libs[li]? = some l ∧ l.defs[di]? = some d ∧ identOf d.data = some did ∧
+    identOf l.data = some lid ∧ validIdentTok did = true ∧ validIdentTok lid = true ∧
+    findIdent ((readLibs n.libs lws).map (·.data)) lid = some li ∧ (readLibs n.libs lws)[li]? = some l' ∧
+    findIdent (l'.defs.map (·.data)) did = some di
+
+/-- the netlist the reader builds from the writer's file -/
+def readNetlist (n : CNetlist) (nident nname : Str) (ts : List Int) (prog ver : Option Str) (lws : List LW)
+    (tident tname : Str) (li di : Nat) : CNetlist :=
+  { data := statusData ((withName [] nident nname).set kVERSION (.list [.int 2, .int 0, .int 0])) ts prog ver,
+    libs := readLibs n.libs lws, top := some (readTop tident tname li di) }
+
+theorem intsOf_200 : intsOf [A "2", A "0", A "0"] = .ok [2, 0, 0] := by
+  show intsOf [.atom (natStr 2), .atom (natStr 0), .atom (natStr 0)] = _
+  simp [intsOf, List.mapM_cons, intOfS_natStr, bind, Except.bind, pure, Except.pure]
+
+theorem joinDot_version : joinDot [S "EDIF", S "edifVersion"] = kVERSION := by decide
+
+/-- **netlist_roundtrip** (file level): the reader applied to the s-expression the writer emits for a
+    whole netlist returns the netlist whose libraries are the re-read images `readLibs`, whose top
+    instance has the same name and reference, and whose own name is the same -/
+theorem netlist_roundtrip (n : CNetlist) (nident nname : Str) (prog ver : Option Str) (lws : List LW) (t : CInst)
+    (tident tname : Str) (li di : Nat) (y mo d h mi s : Nat)
+    (hok : NetOK n nident nname prog ver lws t tident tname li di) :
+    ∃ e, toSExp [y, mo, d, h, mi, s] n = .ok e ∧
+      ofSExp e = .ok (readNetlist n nident nname
+        [Int.ofNat y, Int.ofNat mo, Int.ofNat d, Int.ofNat h, Int.ofNat mi, Int.ofNat s] prog ver lws tident tname li di) := by
+  obtain ⟨nm, hnm, _, hdef⟩ := nameDef_nameSExp n.data nident nname hok.named "netlist"
+  obtain ⟨sr, hst, hsread⟩ := status_roundtrip n.data prog ver y mo d h mi s hok.status
+  obtain ⟨l, dd, did, lid, l', hl, hd, hdid, hlid, hvd, hvl, hfl, hl', hfd⟩ := hok.target
+  obtain ⟨tn, htn, hdes⟩ := design_roundtrip (readLibs n.libs lws) t.data tident tname did lid li di l' hok.tnamed hvd hvl hfl hl' hfd
+  have hlibs : ∀ st : BodySt, st.libs = [] → ∃ yss : List (List SExp), n.libs.mapM (libSExp n.libs) = .ok (yss.map SExp.list) ∧
+      yss.foldlM bodyItem st = .ok { st with libs := readLibs n.libs lws } := by
+    intro st hs
+    obtain ⟨yss, h1, h2⟩ := libs_roundtrip n.libs n.libs lws [] st (by rw [hs]; exact hok.libs) (by rw [hs]; exact KnownBy_nil)
+    exact ⟨yss, h1, by rw [h2, hs]; simp⟩
+  obtain ⟨yss, hw, _⟩ := hlibs { m := Meta.new } rfl
+  have hlf : ∀ st : BodySt, st.libs = [] → yss.foldlM bodyItem st = .ok { st with libs := readLibs n.libs lws } := by
+    intro st hs
+    obtain ⟨yss', h1, h2⟩ := hlibs st hs
+    have : yss' = yss := map_list_inj (by have := h1.symm.trans hw; simpa using this)
+    rw [← this]; exact h2
+  refine ⟨.list ([A "edif", nm, .list [A "edifversion", A "2", A "0", A "0"], .list [A "edifLevel", A "0"],
+    .list [A "keywordmap", .list [A "keywordlevel", A "0"]], .list (A "status" :: sr)] ++ yss.map SExp.list ++
+    [.list [A "design", tn, .list [A "cellref", .atom did, .list [A "libraryref", .atom lid]]]]), ?_, ?_⟩
+  · simp only [toSExp, hnm, hst, hw, hok.top, htn, hok.tref, hl, hd, needIdent, hdid, hlid, bind, Except.bind, pure,
+      Except.pure]
+  · have he : ∀ xs, headIs (A "edif" :: xs) "edif" = true := by intro xs; rw [headIs_cons]; decide
+    have hv : ∀ xs, headIs (A "edifversion" :: xs) "edifversion" = true := by intro xs; rw [headIs_cons]; decide
+    have hkm : isKw (A "keywordmap") "keywordmap" = true := by decide
+    have hl1 : isKw (A "edifLevel") "ediflevel" = true := by decide
+    have hl2 : isKw (A "keywordlevel") "keywordlevel" = true := by decide
+    have hs1 : ∀ xs, headIs (A "status" :: xs) "status" = true := by intro xs; rw [headIs_cons]; decide
+    have hd1 : ∀ xs, headIs (A "design" :: xs) "status" = false := by intro xs; rw [headIs_cons]; decide
+    have hd2 : ∀ xs, headIs (A "design" :: xs) "library" = false := by intro xs; rw [headIs_cons]; decide
+    have hd3 : ∀ xs, headIs (A "design" :: xs) "external" = false := by intro xs; rw [headIs_cons]; decide
+    have hd4 : ∀ xs, headIs (A "design" :: xs) "design" = true := by intro xs; rw [headIs_cons]; decide
+    have nv1 : kVERSION ≠ S "EDIF.original_identifier" := by decide
+    have nv2 : kVERSION ≠ kIDENT := by decide
+    have hbody := loopC_lists bodyItem
+    simp only [ofSExp, List.cons_append, List.nil_append, he, Bool.not_true, Bool.false_eq_true, if_false, List.tail_cons,
+      Meta.new, hdef [] _ rfl, hv, intsOf_200, List.length_cons, List.length_nil, push_mk, pop_mk, List.dropLast,
+      setAttr_key _ _ kVERSION _ joinDot_version nv1 nv2, levelOf_zero _ "edifLevel" "ediflevel" "edifLevel" hl1, hkm,
+      levelOf_zero _ "keywordlevel" "keywordlevel" "keywordLevel" hl2, loopC, bodyItem, hs1, if_true, hsread, bind,
+      Except.bind, pure, Except.pure, List.map_cons, List.map_nil]
+    have h3 : ¬ (0 + 1 + 1 + 1 ≠ 3) := by decide
+    simp only [h3, if_false]
+    rw [hbody, hlf _ rfl]
+    simp only [bind, Except.bind, loopC, bodyItem, hd1, hd2, hd3, hd4, Bool.false_eq_true, if_false, Bool.or_self, if_true,
+      hdes, endC, pure, Except.pure, readNetlist]
+
 end Spydr.Edif
